@@ -68,8 +68,9 @@ package keygen
 //@   requires 0 <= j && j < kgN(round) && j != round.Parameters.partyID.Index && ch != nil && len(ContextJ) <= 1048576
 //@   requires kg2m1slotEd(round.temp.kgRound2Message1s[j]) && kg2m2slotEd(round.temp.kgRound2Message2s[j])
 //@   requires [threshold-range] 0 <= round.Parameters.threshold && round.Parameters.threshold < 1024
-//@   modifies sent(ch), allfield("crypto.ECPoint", "curve")
+//@   modifies sent(ch), allfield("crypto.ECPoint", "curve"), zkok(0)
 //@   ensures sent(ch) == old(sent(ch)) + 1
+//@   ensures [C05.a-result-without-error-means-the-schnorr-proof-was-accepted] isnil(sentf(ch, old(sent(ch)), "unWrappedErr")) ==> zkok(0) == old(zkok(0)) + 1
 //@   ensures [C03.a-result-without-error-carries-a-verified-commitment-row] isnil(sentf(ch, old(sent(ch)), "unWrappedErr")) ==> (kgRowEd(round, sentf(ch, old(sent(ch)), "pjVs")) && fresh(sentf(ch, old(sent(ch)), "pjVs")))
 //@   ensures [C20.curve-field-rewritten-with-same-value] fieldheap("crypto.ECPoint", "curve") == old(fieldheap("crypto.ECPoint", "curve"))
 //@   ensures [C17.every-accepted-commitment-is-cofactor-cleared] isnil(sentf(ch, old(sent(ch)), "unWrappedErr")) ==> (forall c in 0..len(sentf(ch, old(sent(ch)), "pjVs")) :: torsionfree(round.Parameters.ec, px(sentf(ch, old(sent(ch)), "pjVs")[c]), py(sentf(ch, old(sent(ch)), "pjVs")[c])))
@@ -84,7 +85,7 @@ package keygen
 //@   requires [threshold-range] 0 <= round.Parameters.threshold && round.Parameters.threshold < 1024 && round.Parameters.partyCount == kgN(round) && kgN(round) >= 2
 //@   requires [round-2-complete] forall j in 0..kgN(round) :: (j != round.Parameters.partyID.Index ==> (kg2m1slotEd(round.temp.kgRound2Message1s[j]) && kg2m2slotEd(round.temp.kgRound2Message2s[j])))
 //@   requires [own-dealing] len(round.temp.shares) == kgN(round) && round.temp.shares[round.Parameters.partyID.Index] != nil && round.temp.shares[round.Parameters.partyID.Index].Share != nil && kgRowEd(round, round.temp.vs) && len(round.temp.ssid) <= 4096 && len(round.save.BigXj) == kgN(round)
-//@   modifies round.number, round.started, round.ok[*], round.save.Xi, round.save.BigXj[*], round.save.BigXj, round.save.EDDSAPub, sent(round.end), allfield("crypto.ECPoint", "curve")
+//@   modifies round.number, round.started, round.ok[*], round.save.Xi, round.save.BigXj[*], round.save.BigXj, round.save.EDDSAPub, sent(round.end), allfield("crypto.ECPoint", "curve"), zkok(0)
 //@   ensures [C03.key-data-emitted-once-and-only-on-success] (result == nil ==> sent(old(round.end)) == old(sent(round.end)) + 1) && (result != nil ==> sent(old(round.end)) == old(sent(round.end)))
 //@   loop 0 invariant round.started && xi != nil && fresh(xi) && Ps == round.Parameters.parties.partyIDs && PIdx == round.Parameters.partyID.Index && sent(round.end) == old(sent(round.end))
 //@   loop 1 invariant kgRowEd(round, round.temp.vs) && arr(Vc) != arr(round.temp.vs) && round.started && fresh(Vc) && len(Vc) == round.Parameters.threshold + 1 && (forall k in 0..$iter :: (validPoint(Vc[k]) && Vc[k].curve == round.Parameters.ec)) && Ps == round.Parameters.parties.partyIDs && PIdx == round.Parameters.partyID.Index && sent(round.end) == old(sent(round.end))
